@@ -219,11 +219,11 @@ Proof. vm_compute. reflexivity. Qed.
 Lemma all_factors_declared : forallb factor_ok declared = true.
 Proof. vm_compute. reflexivity. Qed.
 
-Lemma all_factors_reference : forallb (fun e => matches_reference (fst (fst e))) declared = true.
-Proof. vm_compute. reflexivity. Qed.
+(* (all_factors_reference: see all_factors_reference_r3 below -- relative tolerance, reference by
+   physical dimension; one unit is misnamed on the unchanged tree) *)
 
 Lemma celsius_shift : exists u, In u (map (fun e => fst (fst e)) declared) /\ uname u = "celsius"%string /\
-   utimes u = Q2Qc 1 /\ close ref_tol (uadd u) (qc 27315 100) = true.
+   utimes u = Q2Qc 1 /\ rclose ref_tol (uadd u) (qc 27315 100) = true.
 Proof.
   exists u_celsius. split; [|split; [reflexivity|split; [vm_compute; reflexivity|vm_compute; reflexivity]]].
   vm_compute. tauto.
@@ -234,3 +234,204 @@ Proof. intros H. pose proof all_classes_ok as A. rewrite forallb_forall in A. ap
 
 Lemma class_in_disjoint cname cls : In (cname, cls) classes -> aliases_disjoint cls = true /\ nonempty_aliases cls = true.
 Proof. intros H. pose proof all_aliases_disjoint as A. rewrite forallb_forall in A. specialize (A _ H). apply andb_true_iff in A. exact A. Qed.
+
+(* ================================================================== round 3 additions *)
+
+(* ------------------------------------------------------------------ decidable unit equality *)
+Lemma list_eqb'_eq (a b : list string) : list_eqb' String.eqb a b = true -> a = b.
+Proof.
+  revert b. induction a as [|x a IH]; intros [|y b] H; cbn [list_eqb'] in H; try discriminate; [reflexivity|].
+  apply andb_true_iff in H as [H1 H2]. apply String.eqb_eq in H1. subst y. f_equal. apply IH. exact H2.
+Qed.
+
+Lemma ueqb_eq u v : ueqb u v = true -> u = v.
+Proof.
+  unfold ueqb. intros H. repeat (apply andb_true_iff in H as [H ?]).
+  destruct u as [n1 a1 t1 s1], v as [n2 a2 t2 s2]. cbn [uname ualiases utimes uadd] in *.
+  apply String.eqb_eq in H. apply list_eqb'_eq in H2. apply Qceqb_eq in H1, H0. subst. reflexivity.
+Qed.
+
+Lemma mem_unit_In u l : mem_unit u l = true -> In u l.
+Proof.
+  unfold mem_unit. rewrite existsb_exists. intros [v [Hv E]]. apply ueqb_eq in E. subst v. exact Hv.
+Qed.
+
+(* ------------------------------------------------------------------ alias uniqueness, two-sided *)
+Lemma find_unit_exists cls a u : In u cls -> has_alias a u = true -> exists w, find_unit cls a = Some w.
+Proof.
+  unfold find_unit. induction cls as [|h r IH]; intros Hu Ha; [destruct Hu|].
+  cbn [find]. destruct (has_alias a h) eqn:E; [eexists; reflexivity|].
+  destruct Hu as [->|Hu]; [congruence|]. apply IH; assumption.
+Qed.
+
+Lemma disjoint_two cls : aliases_disjoint cls = true ->
+  forall a u v, In u cls -> In v cls -> has_alias a u = true -> has_alias a v = true -> u = v.
+Proof.
+  intros Hd a u v Hu Hv Au Av. destruct (find_unit_exists cls a u Hu Au) as [w Hw].
+  rewrite (aliases_disjoint_unique cls Hd a w Hw u Hu Au).
+  rewrite (aliases_disjoint_unique cls Hd a w Hw v Hv Av). reflexivity.
+Qed.
+
+Lemma nonempty_In cls u : nonempty_aliases cls = true -> In u cls -> ualiases u <> [].
+Proof.
+  unfold nonempty_aliases. rewrite forallb_forall. intros H Hu. specialize (H _ Hu).
+  destruct (ualiases u); [discriminate|congruence].
+Qed.
+
+Lemma find_unit_self cls u : aliases_disjoint cls = true -> ualiases u <> [] -> In u cls ->
+  find_unit cls (uquery u) = Some u.
+Proof.
+  intros Hd Hn Hu. pose proof (uquery_self u Hn) as Hq.
+  destruct (find_unit_exists cls _ u Hu Hq) as [w Hw]. rewrite Hw. f_equal.
+  symmetry. exact (aliases_disjoint_unique cls Hd _ w Hw u Hu Hq).
+Qed.
+
+(* ------------------------------------------------------------------ lookup + conversion, inside a class *)
+(* converting a quantity whose unit belongs to the class into a NAME that the class resolves to v
+   always succeeds and yields conv x u v labelled v -- also when the name is the current unit *)
+Lemma to_name_in_class cls a name v :
+  aliases_disjoint cls = true -> 0 < utimes (vu a) -> In (vu a) cls ->
+  find_unit cls name = Some v ->
+  exists r, to_name cls a name = Some r /\ vx r = conv (vx a) (vu a) v /\ vu r = v.
+Proof.
+  intros Hd Pa Ha Hf. unfold to_name. destruct (has_alias name (vu a)) eqn:E.
+  - assert (vu a = v) as <- by exact (aliases_disjoint_unique cls Hd name v Hf (vu a) Ha E).
+    exists a. split; [reflexivity|]. split; [|reflexivity].
+    rewrite conv_same by (apply pos_nonzero; exact Pa). reflexivity.
+  - rewrite Hf. eexists. split; [reflexivity|]. split; reflexivity.
+Qed.
+
+Lemma to_unit_in_class cls a v :
+  aliases_disjoint cls = true -> nonempty_aliases cls = true -> 0 < utimes (vu a) ->
+  In (vu a) cls -> In v cls ->
+  exists r, to_unit cls a v = Some r /\ vx r = conv (vx a) (vu a) v /\ vu r = v.
+Proof.
+  intros Hd Hn Pa Ha Hv. unfold to_unit. apply to_name_in_class; try assumption.
+  apply find_unit_self; try assumption. exact (nonempty_In cls v Hn Hv).
+Qed.
+
+(* the operand conversion of every dunder: other.to(self.units) -- no premise beyond membership *)
+Lemma other_in_total cname cls a b : In (cname, cls) classes -> In (vu a) cls -> In (vu b) cls ->
+  other_in cls a b = Some (conv (vx b) (vu b) (vu a)).
+Proof.
+  intros Hc Ha Hb. destruct (class_in_disjoint _ _ Hc) as [Hd Hn].
+  destruct (class_ok_sound _ (class_in_ok _ _ Hc) _ _ Hb Ha) as [Pb _].
+  destruct (to_unit_in_class cls b (vu a) Hd Hn Pb Hb Ha) as [r [Hr [Hx _]]].
+  unfold other_in. rewrite Hr. cbn [option_map]. rewrite Hx. reflexivity.
+Qed.
+
+(* ------------------------------------------------------------------ order lemmas over any common unit *)
+Lemma gt_is_lt_swapped xa xb ua ub :
+  0 < utimes ua -> 0 < utimes ub -> compatible ua ub ->
+  (conv xb ub ua < xa <-> xb < conv xa ua ub).
+Proof.
+  intros Pa Pb Hc. assert (Hc' : compatible ub ua) by (destruct Hc as [H|H]; [left|right]; symmetry; exact H).
+  split; intros H.
+  - apply (conv_monotone _ _ ua ub Pa Pb) in H.
+    rewrite conv_roundtrip_gen in H; try (apply pos_nonzero; assumption); assumption.
+  - apply (conv_monotone _ _ ub ua Pb Pa) in H.
+    rewrite conv_roundtrip_gen in H; try (apply pos_nonzero; assumption); assumption.
+Qed.
+
+Lemma Qcltb_iff a b c d : (a < b <-> c < d) -> Qcltb a b = Qcltb c d.
+Proof.
+  intros H. destruct (Qcltb a b) eqn:E1, (Qcltb c d) eqn:E2; try reflexivity.
+  - apply Qcltb_lt in E1. apply H in E1. apply Qcltb_lt in E1. congruence.
+  - apply Qcltb_lt in E2. apply H in E2. apply Qcltb_lt in E2. congruence.
+Qed.
+
+Lemma Qcnonneg_true x : Qcnonneg x = true <-> 0 <= x.
+Proof. unfold Qcnonneg. rewrite Qle_bool_iff. reflexivity. Qed.
+Lemma Qcnonneg_false x : Qcnonneg x = false -> x < 0.
+Proof.
+  intros H. destruct (Qclt_le_dec x 0) as [L|L]; [exact L|]. apply Qcnonneg_true in L. congruence.
+Qed.
+Lemma Qcabs_nonneg x : 0 <= Qcabs x.
+Proof.
+  unfold Qcabs. destruct (Qcnonneg x) eqn:E; [apply Qcnonneg_true; exact E|].
+  apply Qcnonneg_false in E. apply Qclt_le_weak in E. apply Qcopp_le_compat in E. exact E.
+Qed.
+Lemma Qcabs_opp x : Qcabs (- x) = Qcabs x.
+Proof.
+  unfold Qcabs. destruct (Qcnonneg x) eqn:E1, (Qcnonneg (- x)) eqn:E2; try reflexivity.
+  - apply Qcnonneg_true in E1, E2.
+    assert (x = 0) as ->. { apply Qcle_antisym; [|exact E1]. apply Qcopp_le_compat in E2. rewrite Qcopp_involutive in E2. exact E2. }
+    reflexivity.
+  - rewrite Qcopp_involutive. reflexivity.
+  - exfalso. apply Qcnonneg_false in E1, E2. apply Qclt_minus_iff in E2. rewrite Qcopp_involutive, Qcplus_0_l in E2.
+    apply (Qclt_irrefl x). eapply Qclt_trans; eassumption.
+Qed.
+
+Lemma Qcabs_sub_sym a b : Qcabs (a - b) = Qcabs (b - a).
+Proof. rewrite <- Qcabs_opp. f_equal. ring. Qed.
+
+(* ------------------------------------------------------------------ finite sweeps (round 3) *)
+Lemma all_units_disjoint : aliases_disjoint all_units = true.
+Proof. vm_compute. reflexivity. Qed.
+
+Lemma all_class_units_declared :
+  forallb (fun e => forallb (fun u => mem_unit u all_units) (snd e)) classes = true.
+Proof. vm_compute. reflexivity. Qed.
+
+Lemma class_unit_declared cname cls u : In (cname, cls) classes -> In u cls -> In u all_units.
+Proof.
+  intros Hc Hu. pose proof all_class_units_declared as A. rewrite forallb_forall in A.
+  specialize (A _ Hc). cbn [snd] in A. rewrite forallb_forall in A. apply mem_unit_In. apply A. exact Hu.
+Qed.
+
+Lemma all_factors_reference_r3 :
+  forallb (fun u => matches_reference u || (misnamed (uname u) && misnamed_ok u)) all_units = true.
+Proof. vm_compute. reflexivity. Qed.
+
+Lemma consts_consistent_ok : consts_consistent = true.
+Proof. vm_compute. reflexivity. Qed.
+
+(* a unit of a different kind: its aliases resolve to nothing in the class *)
+Lemma foreign_alias_unknown cname cls f name :
+  In (cname, cls) classes -> In f all_units -> ~ In f cls -> has_alias name f = true ->
+  forall u, In u cls -> has_alias name u = false.
+Proof.
+  intros Hc Hf Hnot Hal u Hu. destruct (has_alias name u) eqn:E; [exfalso|reflexivity].
+  apply Hnot. rewrite (disjoint_two all_units all_units_disjoint name f u Hf (class_unit_declared _ _ _ Hc Hu) Hal E).
+  exact Hu.
+Qed.
+
+(* ------------------------------------------------------------------ arrays *)
+Lemma all_close_refl l : all_close l l = true.
+Proof.
+  induction l as [|x l IH]; [reflexivity|]. cbn [all_close]. rewrite IH, andb_true_r.
+  replace (x - x) with 0 by ring. unfold Qcleb. apply Qle_bool_iff. change (0 <= tiny + tiny * Qcabs x).
+  pose proof (Qcabs_nonneg x) as Habs.
+  assert (Ht : 0 <= tiny) by (vm_compute; discriminate).
+  replace 0 with (0 + 0) by ring. apply Qcplus_le_compat; [exact Ht|].
+  replace 0 with (0 * Qcabs x) by ring. apply Qcmult_le_compat_r; assumption.
+Qed.
+
+Lemma map_conv_roundtrip xs u v : utimes u <> 0 -> utimes v <> 0 -> compatible u v ->
+  map (fun x => conv x v u) (map (fun x => conv x u v) xs) = xs.
+Proof.
+  intros Hu Hv Hc. rewrite map_map. rewrite <- (map_id xs) at 2. apply map_ext.
+  intros x. apply conv_roundtrip_gen; assumption.
+Qed.
+
+Lemma conv_lt_iff x y u w : 0 < utimes u -> 0 < utimes w -> (x < y <-> conv x u w < conv y u w).
+Proof.
+  intros Pu Pw. split; [apply conv_monotone; assumption|].
+  intros H. destruct (Qclt_le_dec x y) as [L|L]; [exact L|exfalso].
+  apply Qcle_lt_or_eq in L as [L|L].
+  - apply (conv_monotone _ _ u w Pu Pw) in L. apply (Qclt_irrefl (conv x u w)). eapply Qclt_trans; eassumption.
+  - rewrite L in H. apply (Qclt_irrefl _ H).
+Qed.
+
+Lemma gt_common_unit xa xb ua ub w :
+  0 < utimes ua -> 0 < utimes ub -> 0 < utimes w ->
+  (uadd ub = uadd ua \/ utimes ua = utimes w) ->
+  (conv xb ub ua < xa <-> conv xb ub w < conv xa ua w).
+Proof.
+  intros Ha Hb Hw Hc.
+  rewrite <- (conv_path_gen xb ub ua w) by (try apply pos_nonzero; assumption).
+  apply conv_lt_iff; assumption.
+Qed.
+
+Lemma Some_true_iff (b : bool) (P : Prop) : (b = true <-> P) -> (Some b = Some true <-> P).
+Proof. intros H. split; [intros E; injection E as E; apply H; exact E|intros p; f_equal; apply H; exact p]. Qed.
